@@ -31,6 +31,7 @@ RULE = (
     "and with exception objects that test false. Non-trivial: >=2 entries and (a block exception or an exit that raises/suppresses "
     "or a history op); distinct = distinct (entries, outcome, history) by 64-bit hash."
     " Extensions of rounds 9-12: exits raising KeyboardInterrupt / SystemExit, re-raising the block's own object, enters failing with AttributeError, exits pushed during an enter, registration before the block is entered, callback keywords named like the machinery's parameters, all three exit arguments compared."
+    " Round 13: replies whose truth test raises (when an exception is in flight)."
 )
 COMPONENTS = COMPONENTS_BASE
 ASSUMPTIONS = [
